@@ -48,20 +48,21 @@ class Acc(object):
     return "Acc(%r)" % (self.v,)
 
 
-ZEROS = ["int", "float", "frac", "acc"]
+ZEROS = ["int", "float", "frac", "acc", "int5", "fracq"]   # "any zero value"
 DELTAS = [0, 1, 2, 3, 5, 0.125, 0.5, 0.875, 1.5, 2.25, 2.5, 0.1, 0.3, 1.7,
-          3.49, 7, 0.0, 4.625, -1, -0.5]
+          3.49, 7, 0.0, 4.625, -1, -0.5, -1e-9, -0.0]
 CONTAINERS = ["list", "tuple", "gen", "stream", "src"]
 
 
 def make_zero(kind):
-  return {"int": 0, "float": 0., "frac": Fraction(0), "acc": Acc(0)}[kind]
+  return {"int": 0, "float": 0., "frac": Fraction(0), "acc": Acc(0),
+          "int5": 5, "fracq": Fraction(1, 4)}[kind]
 
 
 def conv(kind, v):
   if kind == "float":
     return float(v)
-  if kind == "frac":
+  if kind in ("frac", "fracq"):
     return Fraction(v)
   return v
 
